@@ -37,7 +37,8 @@ LIMITS = {"quick": {"max_paths": 3000, "budget_s": 300}, "thorough": {"max_paths
 def EXTRA_STUBS():
     from symx import install
     PU = install.mod("osyris.plot.utils")
-    return {"osyris.plot.utils": {"prange": range},
+    from harness import common as C_
+    return {"osyris.plot.utils": dict(C_.njit_helpers_as_python("osyris.plot.utils", skip=("evaluate_on_grid", "hist2d")), prange=range),
             "osyris.plot.histogram2d": {"hist2d": PU.hist2d.py_func}}
 
 
